@@ -4,7 +4,7 @@ CONSTANTS
   Max <- gMax
   Expiry <- gExpiry
   GcPeriod <- gGc
-  Txn = {"t0", "t1", "t2", "t3", "t4", "t5", "t6", "t7", "t8", "t9"}
+  Txn = {"t0", "t1", "t2", "t3", "t4", "t5"}
   Leaves <- gLeaves
   Steps = {1}
   MaxNow = 1000
